@@ -5,6 +5,7 @@
 import VM.Proofs.PipelineProof
 import VM.Impl.SpecRules
 import VM.Generated.SpecFacts
+import VM.Impl.SpecModel
 namespace VM.C10
 open VM Sw
 
@@ -246,6 +247,24 @@ theorem pathNameErrs_perm (v v' : View) (h : v.pathKeys.Perm v'.pathKeys) (h1 : 
       · rintro ⟨k, hk, hm⟩; exact ⟨k, h.mem_iff.mpr hk, hm⟩
 
 /-! ### witnesses: where the order does show -/
+
+/-! ### the model of the whole of `Validate` -/
+
+/-- **Monotone, for the whole model**: every error `Validate` reports when it stops at the first failing group is reported
+    when it continues — for every raw document, view, regexp engine and format registry (no hypothesis left: the one stage
+    that stops by itself is covered by `requiredDefs_stop_subset`). -/
+theorem C10_whole_model_monotone (O : Oracles) (raw : JVal) (v0 v : View) :
+    ∀ m ∈ (specModel false O raw v0 v).1.errors, m ∈ (specModel true O raw v0 v).1.errors := by
+  have h := C10_monotone (modelStages O raw v0 v) (by
+    intro m hm
+    simp only [modelStages, msgsRes, Bool.false_eq_true, ↓reduceIte] at hm ⊢
+    exact requiredDefs_stop_subset O v.defs m hm)
+  exact h
+
+/-- the separately returned warnings of the whole model are the warnings of its main result -/
+theorem C10_whole_model_warnings (cont : Bool) (O : Oracles) (raw : JVal) (v0 v : View) :
+    (specModel cont O raw v0 v).2.errors = (specModel cont O raw v0 v).1.warnings :=
+  (C10_returned_warnings_eq cont (modelStages O raw v0 v)).1
 
 def O0 : Oracles :=
   { re := fun _ _ => some false, fmtKnown := fun _ => false, fmt := fun _ _ => false,
